@@ -314,7 +314,7 @@ func checkC06(c *Ctx) {
 			c.Fatal("bad GenHoist line")
 			return
 		}
-		if len(occs) == maxLen && every > 1 && (int64(i)+c.Seed)%int64(every) != 0 {
+		if len(occs) == maxLen && !sampled(i, c.Seed, every) {
 			continue
 		}
 		bodies := map[string][]Stmt{}
